@@ -231,6 +231,31 @@ theorem sample_stat_spec (xs : List K) (h : 2 ≤ xs.length) :
   have h1 : xs.length ≠ 1 := by omega
   simp [sampleStat, h1, welford_mean xs hne, welford_var xs h]
 
+/-- **welford_merge**: combining the states of two non-empty streams gives the state of the concatenated stream
+    (count, mean and M2 all agree) -/
+theorem welford_merge (xs ys : List K) (hx : xs ≠ []) (hy : ys ≠ []) :
+    (wMerge (wRun xs) (wRun ys)).count = (wRun (xs ++ ys)).count ∧
+    (wMerge (wRun xs) (wRun ys)).mean = (wRun (xs ++ ys)).mean ∧
+    (wMerge (wRun xs) (wRun ys)).m2 = (wRun (xs ++ ys)).m2 := by
+  obtain ⟨a1, a2, a3⟩ := wRun_inv xs hx
+  obtain ⟨b1, b2, b3⟩ := wRun_inv ys hy
+  obtain ⟨c1, c2, c3⟩ := wRun_inv (xs ++ ys) (by simp [hx])
+  have hnx : (xs.length : K) ≠ 0 := Nat.cast_ne_zero.mpr (fun e => hx (List.length_eq_zero_iff.mp e))
+  have hny : (ys.length : K) ≠ 0 := Nat.cast_ne_zero.mpr (fun e => hy (List.length_eq_zero_iff.mp e))
+  have hn : ((xs.length : K) + (ys.length : K)) ≠ 0 := by
+    have : ((xs.length + ys.length : Nat) : K) ≠ 0 :=
+      Nat.cast_ne_zero.mpr (fun e => hx (List.length_eq_zero_iff.mp (by omega)))
+    simpa using this
+  refine ⟨?_, ?_, ?_⟩
+  · simp [wMerge, a1, b1, c1]
+  · simp only [wMerge, a1, a2, b1, b2, c2, List.sum_append, List.length_append, Nat.cast_add]
+    field_simp
+    ring
+  · simp only [wMerge, a1, a2, a3, b1, b2, b3, c3, List.sum_append, List.length_append, Nat.cast_add, Welford.sq,
+      List.map_append]
+    field_simp
+    ring
+
 /-! ### non-vacuity -/
 
 def emptyDir : Dir := ⟨fun _ => none, 0, none⟩
